@@ -17,7 +17,8 @@ CHECKS = {
              "block_check tests exactly the (word,bit) block_insert sets and every 'false' is guarded "
              "by that test; insert/check select the same block; typed pairs hash identical bytes with "
              "seed 0; write/read/merge preserve bits under size guards; SALT, block geometry, block "
-             "index formula and the XXH64 constant fingerprint equal the specification. Not decided: "
+             "index formula and the XXH64 constant fingerprint equal the specification; every typed insert reaches "
+             "insert_hash on every path and insert_hash/check_hash have the same early exits (check answers true). Not decided: "
              "XXH64 value equality for all inputs, false-positive rate.",
         ref="DESIGN.md §3 C20"),
 }
@@ -29,7 +30,8 @@ CHECKS["C13"] = dict(
          "required fields unconditional; unknown fields skipped with their own type in every parser loop; "
          "thrift_skip exhaustive over the 13 wire types; struct begin/end balanced on all non-error paths; "
          "last_field_id updated on every field-yielding path of both header codecs; short/long header forms "
-         "complementary; zigzag on both sides. Not decided: value equality for extreme integers/strings, "
+         "complementary; zigzag on both sides; every field-header read/write runs inside a field-id frame pushed by "
+         "struct_begin in the same function (also when a struct is only skipped). Not decided: value equality for extreme integers/strings, "
          "bytes consumed = produced.",
     ref="DESIGN.md §3 C13")
 
@@ -58,7 +60,7 @@ CHECKS["C07"] = dict(
     text="Effect clauses: every write inside the two parallel regions of carquet_batch_reader_next is region-"
          "local, selected by the loop index, a monotone flag, or inside omp critical/atomic; every mutable "
          "file-scope/static-local variable of the library is thread-local or an accepted idempotent lazy "
-         "initialiser written only by its initialiser with the flag published last; in every function "
+         "initialiser written only by its initialiser with the flag published last (plain or __atomic store); in every function "
          "reachable from a region, positioned stdio on the shared stream is inside omp critical with seek and "
          "read together, and no store reaches the shared reader/metadata/schema objects unprotected. Not "
          "decided: equality of batches across thread counts; races inside zlib/zstd/libgomp.",
@@ -84,7 +86,9 @@ CHECKS["C16"] = dict(
          "type->comparator switch agrees per physical type and typed types never use byte order; comparator "
          "bodies order by their own type; floating min/max updates NaN-guarded; memcpy into min/max storage "
          "bounded; every value reaches the update decision or invalidates the bounds; null count = "
-         "num_values - num_non_null. Not decided: that written min/max bound every input; byte-array ordering "
+         "num_values - num_non_null; min/max polarity: every store into a min (max) slot reads only min (max) sources "
+         "and (pointer,size) argument pairs name one bound, across builder, Thrift struct, reader view and page index. "
+         "Not decided: that written min/max bound every input; byte-array ordering "
          "semantics of logical types.",
     ref="DESIGN.md §3 C16")
 
@@ -94,7 +98,8 @@ CHECKS["C17"] = dict(
          "accumulated pair to children, stores it at leaves, consumes exactly its subtree; builder, writer and node "
          "accessors give the same levels for a flat leaf; one leaf predicate for counting and walking; "
          "schema_ensure_capacity grows the four parallel arrays together and dominates every append; accessors "
-         "return the field of the same name. Not decided: leaf order/levels for arbitrary trees under a rewritten "
+         "return the field of the same name; the reader's per-leaf arrays are written only by the recursive walk, which "
+         "every successful build_schema runs. Not decided: leaf order/levels for arbitrary trees under a rewritten "
          "walk (a non-recursive rewrite makes the anchor vanish: exit 2, human review).",
     ref="DESIGN.md §3 C17")
 
@@ -106,18 +111,20 @@ CHECKS["C15"] = dict(
          "prototypes equal the definitions. Extents: for each of the ~80 kernels (three x86 units + scalar "
          "fallbacks) the cursor arithmetic is executed abstractly for every count 0..N (N = 70/140/280 by ISA): "
          "every load/store (masked forms by mask population) lies inside the contract extent of its buffer and "
-         "output kernels write their whole output. Not decided: output equality with the scalar definition; ARM "
+         "output kernels write their whole output; match_copy kernels use block copies only as wide as the guarded "
+         "match distance. Not decided: output equality with the scalar definition; ARM "
          "kernels (not in this build); adequacy of has_avx512f for the BW/VL encodings (observation in DESIGN.md).",
     ref="DESIGN.md §3 C15")
 
 CHECKS["C02"] = dict(
-    technique="static analysis: sibling switch-table agreement, who-may-write over struct fields, paired-update and guard rules on the resolved AST",
+    technique="static analysis: sibling switch-table agreement, who-may-write over struct fields, paired-update and guard rules, index-space provenance typing on the resolved AST",
     text="Structural clauses: the six type->value-size tables agree; the column reader's cursor fields are written "
          "only by the page reader and a frozen set of co-writers; values_remaining and page_values_read move by "
          "the same amount; current_page advances by header+compressed size only with page_loaded cleared and only "
          "after the page was consumed; a whole-page hand-out requires page_values_read == 0; skip mutates state "
          "only through read_batch; all scalar null-bitmap builders set a bit iff def < max_def and bitmaps start "
-         "zeroed. Not decided: dense-value offsets for nullable pages, equality of batch and column reader output.",
+         "zeroed; subscripts never mix the projection / file-column / schema-element / row-group index spaces "
+         "(provenance of the index vs the array's record+member). Not decided: dense-value offsets for nullable pages, equality of batch and column reader output.",
     ref="DESIGN.md §3 C02")
 CHECKS["C03"] = dict(
     technique="static analysis: sibling implementation diff over callee/header-field provenance feature sets; typestate on the ownership tag along CFG paths",
@@ -125,8 +132,9 @@ CHECKS["C03"] = dict(
          "feature sets (parsers/decoders called, header field feeding each size argument, guards on header fields "
          "and their error codes, header fields feeding the cursor fields) outside a reasoned allow-list; the three "
          "footer readers reject short files, wrong trailing magic and oversized footer length; free(decoded_values) "
-         "is unreachable while the buffer may be a mapped view, and a view is stored only with its VIEW tag. Not "
-         "decided: row alignment of batches across columns, lifetime of zero-copy data.",
+         "is unreachable while the buffer may be a mapped view, a view is stored only with its VIEW tag, and the "
+         "published pointer is pointer arithmetic on file_reader->mmap_data on every definition (never a recycled "
+         "heap buffer). Not decided: row alignment of batches across columns.",
     ref="DESIGN.md §3 C03")
 
 CHECKS["C01"] = dict(
@@ -135,7 +143,9 @@ CHECKS["C01"] = dict(
          "type; finalize paths flush/append/reset in order and cover every column; every status on the write path is "
          "consumed; the level encoder never pads mid-stream; PLAIN encoders append exactly what decoders consume "
          "(counts 0..40); PLAIN BYTE_ARRAY accepts every exactly fitting page of 0..3 values with lengths in "
-         "{0,1,5} (trailing empty strings included), rejects short pages, stays inside the page. Not decided: value "
+         "{0,1,5} (trailing empty strings included), rejects short pages, stays inside the page; the codec tag alone "
+         "selects raw bytes vs codec stream in compress_data, decompress_page and the loaders (no size-based "
+         "shortcut). Not decided: value "
          "and null-position equality, row-group partition, multi-batch-per-page level layout (known value-level "
          "limitation, DESIGN.md).",
     ref="DESIGN.md §3 C01")
@@ -146,14 +156,15 @@ CHECKS["C05"] = dict(
          "page header sizes are the sizes of compress_data's input/output, CRC and counts come from the stored "
          "bytes/state, page layout rep|def|values; emitted LZ offsets fit 16 bits; file_offset changes only by "
          "written sizes; chunk offsets from a running offset; duplicated struct definitions and extern prototypes "
-         "agree across units. Not decided: acceptance by an independent reader, byte-determinism, payload validity.",
+         "agree across units; a chunk tagged with a codec only ever stores that compressor's output. Not decided: acceptance by an independent reader, byte-determinism, payload validity.",
     ref="DESIGN.md §3 C05")
 CHECKS["C06"] = dict(
     technique="static analysis: switch exhaustiveness/defaults, page-type admission vs header-member use, exhaustive abstract evaluation of the level-width functions over 0..32767, provenance of widths",
     text="Structural clauses: unknown codecs/encodings/types are rejected by error defaults; each loader admits exactly "
          "the page type whose header member it consumes (DATA_PAGE_V2 refused); reader's and writer's "
          "bit_width_for_max equal the bit length for every level 0..32767; level widths derive from the column's max "
-         "level, index width from the page byte; enum tags equal parquet.thrift. Not decided: decoded values/levels "
+         "level, index width from the page byte; enum tags equal parquet.thrift; page bytes are interpreted by the "
+         "codec tag alone (only the UNCOMPRESSED arm copies raw bytes). Not decided: decoded values/levels "
          "equal the stored ones; nested reconstruction.",
     ref="DESIGN.md §3 C06")
 CHECKS["C09"] = dict(
@@ -161,7 +172,9 @@ CHECKS["C09"] = dict(
     text="Capacity clauses: in the built-in compressors the dst_capacity < compress_bound(src_size) refusal dominates "
          "every store through dst; zlib/zstd wrappers pass dst/dst_capacity unchanged; compress_data pairs each "
          "codec's bound with its compressor, allocates `bound` and passes it as capacity; match distances admitted by "
-         "the compressors fit the two offset bytes emitted; decompressors report op - dst under capacity checks. Not "
+         "the compressors fit the two offset bytes emitted; decompressors report op - dst under capacity checks; block "
+         "copies from the output's own history (decoders and match_copy kernels) are nested in a guard distance >= "
+         "width. Not "
          "decided: round trip; sufficiency of the bound formulas.",
     ref="DESIGN.md §3 C09")
 CHECKS["C11"] = dict(
@@ -169,7 +182,8 @@ CHECKS["C11"] = dict(
     text="Structural clauses: the hybrid encoder's pad store runs only with a full/empty group or as the last emission "
          "of flush; PLAIN (all fixed-width types, BOOLEAN, FIXED_LEN) and BYTE_STREAM_SPLIT encoders/decoders "
          "produce/consume exactly count*width bytes with exact extents for counts 0..40 and refuse short inputs; no "
-         "implicit 64->32-bit narrowing of a non-constant exists in the codec and file layers. Not decided: "
+         "implicit 64->32-bit narrowing of a non-constant exists in the codec and file layers; DELTA_BYTE_ARRAY encoder "
+         "and decoder advance their predecessor reference on every iteration. Not decided: "
          "decode(encode(v)) = v for DELTA_*, dictionary, RLE; streaming/one-shot agreement.",
     ref="DESIGN.md §3 C11")
 
@@ -181,7 +195,8 @@ CHECKS["C04"] = dict(
          "dictionary copy bounded by the page size; Thrift list counts validated before sizing allocations/loops; "
          "num_children loops also stop at the element count; recursion guarded; reader functions release what they "
          "acquire on every path; every index parameter is range-checked before subscripting; every error exit with "
-         "an error object reports through CARQUET_SET_ERROR or a failing callee, message bounded. Not decided: "
+         "an error object reports through CARQUET_SET_ERROR or a failing callee, message bounded; a buffer member set "
+         "to NULL has its capacity member reset before the capacity is read again. Not decided: "
          "arithmetic adequacy of every guard, running-time bounds, statistics value sizes (noted in DESIGN.md).",
     ref="DESIGN.md §3 C04")
 CHECKS["C08"] = dict(
